@@ -136,6 +136,8 @@ var remotes = []struct{ addr, ip string }{{"192.0.2.10:5555", "192.0.2.10"}, {"[
 
 type behKey struct{}
 
+var lookupF, lookupPlain *fox.Router
+
 func main() {
 	run := kit.Start("C20", rule)
 	defer run.Finish()
@@ -186,9 +188,30 @@ func main() {
 			r.MustHandle("POST", "/only-post", special, ro...)
 			r.MustHandle("GET", "/slash/", special, append(append([]fox.RouteOption(nil), ro...), fox.WithRedirectTrailingSlash(true))...)
 		}
+		// manual dispatch: a router without the router-wide Logger whose route carries the Logger as its own middleware;
+		// an alias route looks the target up (Router.Lookup with the request's writer) and runs the route's middleware chain
+		// on the context Lookup returned
+		lookupF, _ = fox.New(opts[1:]...)
+		lookupPlain, _ = fox.New(opts[1:]...)
+		for i, r := range []*fox.Router{lookupF, lookupPlain} {
+			r := r
+			tro := append([]fox.RouteOption(nil), ro...)
+			if i == 0 {
+				tro = append(tro, fox.WithMiddleware(fox.LoggerWithHandler(cap)))
+			}
+			r.MustHandle("GET", "/r/{id}", special, tro...)
+			r.MustHandle("GET", "/alias/{id}", func(c fox.Context) {
+				req2 := c.Request().Clone(c.Request().Context())
+				req2.URL = &url.URL{Path: "/r/" + c.Param("id"), RawQuery: c.Request().URL.RawQuery}
+				if rte, cc, tsr := r.Lookup(c.Writer(), req2); rte != nil && !tsr {
+					rte.HandleMiddleware(cc)
+					cc.Close()
+				}
+			})
+		}
 		for bi, b := range behs {
 			// the redirect follows a route request directly: it is served from the pooled context that request just released
-			for _, kind := range []string{"route", "redirect", "noroute", "nomethod", "options"} {
+			for _, kind := range []string{"route", "redirect", "noroute", "nomethod", "options", "route-via-lookup", "route-escaped"} {
 				if kind == "redirect" && bi%8 != 0 {
 					continue // the internal redirect handler has a single behaviour
 				}
@@ -302,7 +325,14 @@ func one(run *kit.Run, f, plain *fox.Router, cap *capture, cfg resolverCfg, b be
 	id := fmt.Sprintf("%s|%s|%s|%s|min=%s", cfg.name, b.name, kind, remote, cap.min)
 	run.Case(id, true)
 	method, path := "GET", "/r/42"
+	rawPath, recPath := "", ""
 	switch kind {
+	case "route-via-lookup":
+		f, plain = lookupF, lookupPlain
+		path, recPath = "/alias/42", "/r/42"
+	case "route-escaped":
+		// the wire form /r/4%32: net/url keeps the escaped form next to the decoded path; the record names the path
+		rawPath = "/r/4%32"
 	case "noroute":
 		path = "/missing"
 	case "nomethod":
@@ -320,7 +350,7 @@ func one(run *kit.Run, f, plain *fox.Router, cap *capture, cfg resolverCfg, b be
 		if kind == "redirect" {
 			done = true
 		}
-		req := &http.Request{Method: method, Host: "example.test", URL: &url.URL{Path: path, RawQuery: "z=1"}, Header: http.Header{}, RemoteAddr: remote, Proto: "HTTP/1.1", ProtoMajor: 1, ProtoMinor: 1}
+		req := &http.Request{Method: method, Host: "example.test", URL: &url.URL{Path: path, RawPath: rawPath, RawQuery: "z=1"}, Header: http.Header{}, RemoteAddr: remote, Proto: "HTTP/1.1", ProtoMajor: 1, ProtoMinor: 1}
 		return req.WithContext(context.WithValue(context.Background(), behKey{}, &bb)), &under{h: http.Header{}}, &done
 	}
 	// 405 and OPTIONS need the options enabled: WithNoMethodHandler/WithOptionsHandler enable them
@@ -378,6 +408,9 @@ func one(run *kit.Run, f, plain *fox.Router, cap *capture, cfg resolverCfg, b be
 	if lvl, specified := levelFor(status); specified && r.level != lvl {
 		fail("level %s for status %d, expected %s", r.level, status, lvl)
 	}
+	if recPath != "" {
+		path = recPath
+	}
 	if r.attrs["method"] != method || r.attrs["host"] != "example.test" || r.attrs["path"] != path {
 		fail("record method=%q host=%q path=%q, request is %s example.test %s", r.attrs["method"], r.attrs["host"], r.attrs["path"], method, path)
 	}
@@ -394,7 +427,7 @@ func one(run *kit.Run, f, plain *fox.Router, cap *capture, cfg resolverCfg, b be
 	}
 	// message: client ip of the effective resolver, remote address without resolver, "unknown" on failure
 	eff := cfg.global
-	if kind == "route" {
+	if kind == "route" || kind == "route-via-lookup" || kind == "route-escaped" {
 		if cfg.route != nil {
 			eff = cfg.route
 		}
